@@ -453,7 +453,7 @@ def c16(ctx):
                 "comparisons, each distinct by construction" % (len(cfgs), "all 16" if t else "a pairwise-covering subset of the 16"))
     ctx.assumptions = ["only schedule-independent outputs are hashed; reported memory use is excluded (node sizes legitimately differ between assertion/NDEBUG and AVX2/SSE4.1 builds)",
                        "ARM/NEON and MSVC code paths cannot be built in this sandbox", "hooks are off in these builds: the plain library"]
-    ctx.floors = [("cases_compared", len(cfgs) * ncases)]
+    ctx.floors = [("cases_compared", len(cfgs) * ncases), ("steps_on_completely_full_I256", 1000), ("destroyed_with_completely_full_I256", 10)]
 
 
 # ---------------------------------------------------------------- E7 qptr
